@@ -1,1 +1,68 @@
-fn main(){}
+use std::path::PathBuf;
+use tasim::gen::Tier;
+use tasim::report::{self, Ctx};
+use tasim::scenario::ReplayFile;
+
+fn usage() -> ! {
+    eprintln!("usage: tasim <C04|C05|C06|C12|C17|C18> <quick|thorough> | tasim replay <file>");
+    std::process::exit(2);
+}
+
+fn main() {
+    let args: Vec<String> = std::env::args().collect();
+    if args.len() < 3 {
+        usage();
+    }
+    tasim::runner::install_panic_hook();
+    let seed = std::env::var("VERIF_SEED").ok().and_then(|s| s.trim().parse::<u64>().ok()).unwrap_or(1);
+    let jobs = std::env::var("VERIF_JOBS").ok().and_then(|s| s.parse::<usize>().ok()).unwrap_or_else(|| std::thread::available_parallelism().map(|n| n.get()).unwrap_or(4).min(16));
+    let verif = PathBuf::from(std::env::var("VERIF_DIR").unwrap_or_else(|_| "/verif".into()));
+    let dry = std::env::var("VERIF_DRY").is_ok();
+    if args[1] == "replay" {
+        let text = std::fs::read_to_string(&args[2]).unwrap_or_else(|e| {
+            eprintln!("harness error: cannot read {}: {}", args[2], e);
+            std::process::exit(2)
+        });
+        let rf: ReplayFile = serde_json::from_str(&text).unwrap_or_else(|e| {
+            eprintln!("harness error: cannot parse {}: {}", args[2], e);
+            std::process::exit(2)
+        });
+        let _ = report::CTX.set(Ctx { prop: rf.property.clone(), tier: "quick".into(), seed: rf.seed, jobs, verif: verif.clone(), known: vec![], dry: true });
+        let v = match rf.property.as_str() {
+            "C04" => tasim::c04::exec_plain(&rf.scenario),
+            p => {
+                eprintln!("harness error: no executor for {}", p);
+                std::process::exit(2)
+            }
+        };
+        match v {
+            Some(v) => {
+                println!("reproduced class={} step={} detail={}", v.class, v.step, v.detail);
+                println!("  expected={:?}", v.expected);
+                println!("  got     ={:?}", v.got);
+                if v.class != rf.class {
+                    println!("note: class differs from the recorded one ({})", rf.class);
+                }
+                println!("VIOLATION property={} replay={}", v.property, args[2]);
+                std::process::exit(1);
+            }
+            None => {
+                println!("replay of {} did not reproduce a violation (property holds on this scenario)", args[2]);
+                std::process::exit(0);
+            }
+        }
+    }
+    let tier = match args[2].as_str() {
+        "quick" => Tier::Quick,
+        "thorough" => Tier::Thorough,
+        _ => usage(),
+    };
+    let known = report::load_known(&verif);
+    let _ = report::CTX.set(Ctx { prop: args[1].clone(), tier: args[2].clone(), seed, jobs, verif, known, dry });
+    println!("tasim property={} tier={} VERIF_SEED={} jobs={}", args[1], args[2], seed, jobs);
+    let code = match args[1].as_str() {
+        "C04" => tasim::c04::run(tier),
+        _ => usage(),
+    };
+    std::process::exit(code);
+}
